@@ -14,8 +14,9 @@
 namespace {
 struct Val { std::string type; uint64_t bits; };
 std::vector<Val> g_vec; size_t g_pos = 0; int g_failed = 0;
+bool g_exact = false;   // VERIF_EXACT: models run natively too (generated-C replay), nothing is skipped
 uint64_t next(const char *type) {
-  while (g_pos < g_vec.size() && g_vec[g_pos].type[0] == 'm') g_pos++;   // values consumed by models in the encoding
+  while (!g_exact && g_pos < g_vec.size() && g_vec[g_pos].type[0] == 'm') g_pos++;   // values consumed by models in the encoding
   if (g_pos >= g_vec.size()) { printf("DIVERGED vector exhausted at %zu (%s)\n", g_pos, type); fflush(stdout); _exit(12); }
   const Val &v = g_vec[g_pos++];
   if (v.type != type) { printf("DIVERGED type mismatch at %zu: want %s have %s\n", g_pos - 1, type, v.type.c_str()); fflush(stdout); _exit(12); }
@@ -23,7 +24,7 @@ uint64_t next(const char *type) {
 }
 }
 extern "C" {
-int verif_abort_expected = 0;   // CBMC-side flag (cxxrt.c); plain variable natively
+__attribute__((weak)) unsigned verif_abort_expected = 0;   // CBMC-side flag (cxxrt.c); weak so the generated-C replay can link cxxrt.c
 uint8_t nondet_u8() { return (uint8_t)next("u8"); }
 uint16_t nondet_u16() { return (uint16_t)next("u16"); }
 uint32_t nondet_u32() { return (uint32_t)next("u32"); }
@@ -31,6 +32,10 @@ uint64_t nondet_u64() { return next("u64"); }
 double nondet_double() { uint64_t b = next("f64"); double d; memcpy(&d, &b, 8); return d; }
 float nondet_float() { uint32_t b = (uint32_t)next("f32"); float d; memcpy(&d, &b, 4); return d; }
 bool nondet_bool() { return next("u8") & 1; }
+uint8_t nondet_model_u8() { return (uint8_t)next("mu8"); }
+uint32_t nondet_model_u32() { return (uint32_t)next("mu32"); }
+uint64_t nondet_model_u64() { return next("mu64"); }
+double nondet_model_double() { uint64_t b = next("mf64"); double x; memcpy(&x, &b, 8); return x; }
 void __VERIFIER_assert(bool c, const char *label) {
   if (!c) { printf("ASSERT-FAIL %s\n", label); fflush(stdout); g_failed++; }
 }
@@ -43,6 +48,7 @@ void verif_native_unreachable(const char *what) { printf("ASSERT-FAIL UB: reache
 }
 int main(int argc, char **argv) {
   if (argc < 3) return 13;
+  g_exact = getenv("VERIF_EXACT") != nullptr;
   FILE *f = fopen(argv[2], "r");
   if (!f) return 13;
   char ty[16]; unsigned long long bits;
@@ -51,7 +57,7 @@ int main(int argc, char **argv) {
   void (*fn)() = (void (*)())dlsym(RTLD_DEFAULT, argv[1]);
   if (!fn) { printf("no entry %s\n", argv[1]); return 13; }
   fn();
-  while (g_pos < g_vec.size() && g_vec[g_pos].type[0] == 'm') g_pos++;
+  while (!g_exact && g_pos < g_vec.size() && g_vec[g_pos].type[0] == 'm') g_pos++;
   printf("END consumed=%zu of %zu failed=%d\n", g_pos, g_vec.size(), g_failed);
   fflush(stdout);
   _exit(g_failed ? 10 : 0);
